@@ -61,6 +61,9 @@ pub fn run(tier: Tier) -> i32 {
             ctxs.push((Fmt::Lzma, Opts::default(), enc::lzma_header(3, 0, 2, 0xFFFF_FFFF, sz), format!("lzma header lc3lp0pb2 dict 2^32-1 {}", sl)));
         }
         ctxs.push((Fmt::Lzma, Opts { size: SizeOpt::Provided(Some(3)), ..Opts::default() }, enc::lzma_header(8, 4, 4, 0, None)[..5].to_vec(), "5-byte lzma header lc8lp4pb4, provided size 3".into()));
+        for ml in [1u64 << 26, 1 << 40, u64::MAX - 1] {
+            ctxs.push((Fmt::Lzma, Opts { memlimit: Some(ml), ..Opts::default() }, enc::lzma_header(3, 0, 2, 0x7F7F_7F7F, None), format!("lzma header dict 0x7F7F7F7F, memlimit {}", ml)));
+        }
         ctxs.push((Fmt::Lzma, Opts::default(), vec![], "no context (whole .lzma file)".into()));
         ctxs.push((Fmt::Lzma2, Opts::default(), vec![], "no context (whole LZMA2 stream)".into()));
         let w = lzma2::write(&[Chunk::C { class: 3, props: (3, 0, 2), prog: vec![Sym::L(1), Sym::L(2), Sym::M(2, 5)] }]);
